@@ -236,3 +236,31 @@ func GenerateMoreParticipantsThanPeers() {
 	}
 	vsym.Reach("asked-for-too-many-participants")
 }
+
+// GenerateWithoutClientPassphrase: the client sends no passphrase (the documented default flow), the
+// messages travel through the receiver handlers as on the wire (an absent bytes field is nil): every
+// participant protects its share with the configured generation passphrase, so the account can be
+// unlocked with it (and signs) and cannot be unlocked with the empty passphrase.
+func GenerateWithoutClientPassphrase() {
+	vsym.ForbidCrash()
+	ctx := context.Background()
+	ids := idsSmall[:3]
+	c := newCluster(ctx, ids, 70*time.Second)
+	c.viaHandlers = vsym.Choose("through-the-receiver-handlers", 2) == 1
+	_, _, err := c.nodes[ids[vsym.Choose("initiator", 3)]].proc.OnGenerate(ctx, hc.Creds(), walletName+"/acc", nil, 2, 3)
+	vsym.Assert("G0-honest-generation-succeeds", err == nil)
+	if err != nil {
+		return
+	}
+	vsym.Reach("generated-without-client-passphrase")
+	for _, id := range ids {
+		a := c.account(ctx, id, "acc")
+		vsym.Assert(fmt.Sprintf("G2-account-exists-on-%d", id), a != nil)
+		if a == nil {
+			continue
+		}
+		l := a.(e2wtypes.AccountLocker)
+		vsym.Assert(fmt.Sprintf("D2-share-not-protected-by-the-empty-passphrase-on-%d", id), l.Unlock(ctx, []byte{}) != nil && l.Unlock(ctx, nil) != nil)
+		vsym.Assert(fmt.Sprintf("D1-account-opens-with-the-generation-passphrase-on-%d", id), l.Unlock(ctx, []byte("secret")) == nil)
+	}
+}
